@@ -27,14 +27,18 @@ func retentionTable(w *World, r *Report) (ro *Roles, dec *ssa.Function, decCall 
 		return ro, nil, nil
 	}
 	// anchor: the retention decision = callee of the save function returning (bool, …) taking (int, *PipelineJob)
-	allInstrs(ro.Save, func(in ssa.Instruction) {
-		if c, ok := in.(*ssa.Call); ok {
-			f := c.Call.StaticCallee()
-			if f != nil && w.InModule(f) && f.Signature.Results().Len() >= 1 && f.Signature.Results().At(0).Type().String() == "bool" && f.Signature.Params().Len() == 2 {
-				dec, decCall = f, c
+	// (the retention loop may sit in a helper of the save function)
+	for _, host := range append([]*ssa.Function{ro.Save}, ro.helpersOf(ro.Save)...) {
+		allInstrs(host, func(in ssa.Instruction) {
+			if c, ok := in.(*ssa.Call); ok {
+				f := c.Call.StaticCallee()
+				if f != nil && w.InModule(f) && f.Signature.Results().Len() >= 1 && f.Signature.Results().At(0).Type().String() == "bool" && f.Signature.Params().Len() == 2 &&
+					typeShort(f.Signature.Params().At(1).Type()) == "PipelineJob" {
+					dec, decCall = f, c
+				}
 			}
-		}
-	})
+		})
+	}
 	if dec == nil {
 		r.Undecided("table.anchors", "retention decision", w.Pos(ro.Save.Pos()), "the save function calls no (index, job) → (bool, …) decision function")
 		return ro, nil, nil
@@ -119,7 +123,8 @@ func checkC12(w *World, r *Report) {
 		return
 	}
 	// ---- rank: index and job of the call are the position/element of a sorted fresh copy
-	save := ro.Save
+	// host: the function that holds the retention loop (the save function or a helper spliced into it)
+	save := decCall.Parent()
 	sname := FuncName(save)
 	idxAP, jobAP := w.AP(decCall.Call.Args[len(decCall.Call.Args)-2]), w.AP(decCall.Call.Args[len(decCall.Call.Args)-1])
 	var list ssa.Value
@@ -266,7 +271,11 @@ func checkC12(w *World, r *Report) {
 			return c.IsInvoke() && c.Method.Name() == "Remove" && strings.HasSuffix(c.Value.Type().String(), "taskctl.OutputStore")
 		}) {
 			nRem++
-			r.Check(fn == save, "removal.who-removes-logs", FuncName(fn)+": outputStore.Remove", w.InstrPos(ci), "logs are removed only on the retention path", "logs are removed outside the retention path: the logs of a kept job can disappear")
+			inSave := fn == ro.Save
+			for _, h := range ro.helpersOf(ro.Save) {
+				inSave = inSave || fn == h
+			}
+			r.Check(inSave, "removal.who-removes-logs", FuncName(fn)+": outputStore.Remove", w.InstrPos(ci), "logs are removed only on the retention path", "logs are removed outside the retention path: the logs of a kept job can disappear")
 		}
 	}
 	// the file store removes exactly <base>/<jobID>
@@ -287,31 +296,70 @@ func checkC12(w *World, r *Report) {
 		r.Check(okF && n == 1, "removal.file-store", FuncName(fr)+": what is removed", w.Pos(fr.Pos()), "os.RemoveAll(path.Join(base, jobID)) and nothing else", "the file output store does not remove exactly <base>/<jobID>")
 	}
 
-	// ---- snapshot after removal, same region
+	// ---- snapshot after removal, same region (either part may sit in a helper of the save
+	// function: it is then represented by the helper's call, and helpers must not touch the lock)
+	top := ro.Save
+	tname := FuncName(top)
 	var rangeID ssa.Instruction
-	allInstrs(save, func(in ssa.Instruction) {
-		if rg, ok := in.(*ssa.Range); ok && w.AP(rg.X) == "recv.jobsByID" {
-			rangeID = in
-		}
-	})
+	var snapFn *ssa.Function
+	helperLocks := false
+	for _, f := range append([]*ssa.Function{top}, ro.helpersOf(top)...) {
+		allInstrs(f, func(in ssa.Instruction) {
+			if rg, ok := in.(*ssa.Range); ok && w.AP(rg.X) == "recv.jobsByID" {
+				rangeID, snapFn = in, f
+			}
+			if c := callCommonOf(in); c != nil && f != top && strings.Contains(calleeName(c), "sync.RWMutex)") {
+				helperLocks = true
+			}
+		})
+	}
 	if rangeID == nil || removeIf == nil {
-		r.Viol("snapshot.after-removal", sname+": snapshot of the id index", w.Pos(save.Pos()), "the snapshot does not range over the id index")
+		r.Viol("snapshot.after-removal", tname+": snapshot of the id index", w.Pos(top.Pos()), "the snapshot does not range over the id index")
 	} else {
 		isUnlock := func(x ssa.Instruction) bool {
 			c := callCommonOf(x)
 			return c != nil && (strings.HasSuffix(calleeName(c), "RWMutex).Unlock") || strings.HasSuffix(calleeName(c), "RWMutex).RUnlock"))
 		}
-		res1 := PathQuery{Fn: save, Start: []ssa.Instruction{removeIf.If}, Target: isUnlock, BlockInstr: func(x ssa.Instruction) bool { return x == rangeID }}.Find()
-		after := removeIf.If.Block().Index != rangeID.Block().Index && !rangeID.Block().Dominates(removeIf.If.Block())
-		r.Check(!res1.Found && after, "snapshot.after-removal", sname+": snapshot built after the removal, in the same lock region", w.InstrPos(rangeID), "from the removal loop the lock is not released before the snapshot ranges over the id index", "the lock can be released between the removal and the snapshot (or the snapshot precedes the removal): the set of jobs in the store differs from the set the API reports")
+		remAt, snapAt := ro.liftTo(top, removeIf.If), ro.liftTo(top, rangeID)
+		okOrder := false
+		detail := ""
+		switch {
+		case remAt == nil || snapAt == nil:
+			detail = "the removal loop or the snapshot loop is not reachable from the save function through its helpers"
+		case remAt == snapAt && remAt.Parent() != rangeID.Parent():
+			// both in one helper: order inside the helper
+			res1 := PathQuery{Fn: snapFn, Start: []ssa.Instruction{removeIf.If}, Target: isUnlock, BlockInstr: func(x ssa.Instruction) bool { return x == rangeID }}.Find()
+			okOrder = !res1.Found && !rangeID.Block().Dominates(removeIf.If.Block())
+		default:
+			res1 := PathQuery{Fn: top, Start: []ssa.Instruction{remAt}, Target: isUnlock, BlockInstr: func(x ssa.Instruction) bool { return x == snapAt }}.Find()
+			after := remAt.Block().Index != snapAt.Block().Index && !snapAt.Block().Dominates(remAt.Block())
+			if remAt.Block() == snapAt.Block() {
+				after = instrIndex(remAt) < instrIndex(snapAt)
+			}
+			okOrder = !res1.Found && after
+		}
+		r.Check(okOrder && !helperLocks, "snapshot.after-removal", tname+": snapshot built after the removal, in the same lock region", w.InstrPos(rangeID), "from the removal loop the lock is not released before the snapshot ranges over the id index", "the lock can be released between the removal and the snapshot (or the snapshot precedes the removal): the set of jobs in the store differs from the set the API reports"+detail)
 		// what is saved is the snapshot
 		okSave := false
-		for _, ci := range findCalls(save, func(_ string, c *ssa.CallCommon) bool { return c.IsInvoke() && c.Method.Name() == "Save" }) {
-			if _, isAlloc := w.Resolve(ci.Common().Args[0]).(*ssa.Alloc); isAlloc && instrDominates(rangeID, ci) {
+		for _, ci := range findCalls(top, func(_ string, c *ssa.CallCommon) bool { return c.IsInvoke() && c.Method.Name() == "Save" }) {
+			arg := w.Resolve(ci.Common().Args[0])
+			_, isAlloc := arg.(*ssa.Alloc)
+			if c, ok := arg.(*ssa.Call); ok && snapFn != top && c.Call.StaticCallee() == snapFn {
+				// the helper returns the snapshot it filled
+				isAlloc = true
+				allInstrs(snapFn, func(in ssa.Instruction) {
+					if rt, ok := in.(*ssa.Return); ok && len(rt.Results) == 1 {
+						if _, ok := w.Resolve(rt.Results[0]).(*ssa.Alloc); !ok {
+							isAlloc = false
+						}
+					}
+				})
+			}
+			if isAlloc && snapAt != nil && instrDominates(snapAt, ci) {
 				okSave = true
 			}
 		}
-		r.Check(okSave, "snapshot.saved", sname+": the snapshot is what is saved", w.Pos(save.Pos()), "store.Save receives the snapshot built in this call, after it was filled", "store.Save does not receive the snapshot built from the id index")
+		r.Check(okSave, "snapshot.saved", tname+": the snapshot is what is saved", w.Pos(top.Pos()), "store.Save receives the snapshot built in this call, after it was filled", "store.Save does not receive the snapshot built from the id index")
 	}
 	r.Floor("table.", 1)
 	r.Floor("rank.", 4)
